@@ -175,7 +175,70 @@ func genConsts(repo string) {
 		qs = append(qs, fmt.Sprintf("\"%s\"%%string", c))
 	}
 	fmt.Fprintf(&sb, "Definition g_compatibleVersions : list string := [%s].\n", strings.Join(qs, "; "))
+	// the protobuf schema as the generated Go structs declare it (struct tags of *.pb.go):
+	// (message, field, number, Go type, tag without the name), in source order
+	rows := []string{}
+	for _, dir := range []string{"trie", "array"} {
+		fs, fl := parseDir(filepath.Join(repo, dir))
+		_ = fs
+		for _, f := range fl {
+			for _, d := range f.Decls {
+				gd, ok := d.(*ast.GenDecl)
+				if !ok {
+					continue
+				}
+				for _, sp := range gd.Specs {
+					ts, ok := sp.(*ast.TypeSpec)
+					if !ok {
+						continue
+					}
+					st, ok := ts.Type.(*ast.StructType)
+					if !ok {
+						continue
+					}
+					for _, fld := range st.Fields.List {
+						if fld.Tag == nil || len(fld.Names) == 0 {
+							continue
+						}
+						tag, _ := strconv.Unquote(fld.Tag.Value)
+						i := strings.Index(tag, `protobuf:"`)
+						if i < 0 {
+							continue
+						}
+						t := tag[i+len(`protobuf:"`):]
+						t = t[:strings.Index(t, `"`)]
+						parts := strings.Split(t, ",")
+						if len(parts) < 3 {
+							continue
+						}
+						kept := []string{}
+						for _, x := range parts {
+							if !strings.HasPrefix(x, "name=") {
+								kept = append(kept, x)
+							}
+						}
+						rows = append(rows, fmt.Sprintf("(\"%s.%s\"%%string, \"%s\"%%string, %s, \"%s\"%%string)", dir, ts.Name.Name, fld.Names[0].Name, parts[1], typeStr(fld.Type)+" "+strings.Join(kept, ",")))
+					}
+				}
+			}
+		}
+	}
+	fmt.Fprintf(&sb, "Definition g_proto_fields : list (string * string * N * string) :=\n  [%s].\n", strings.Join(rows, ";\n   "))
 	fmt.Print(sb.String())
+}
+
+func typeStr(e ast.Expr) string {
+	switch x := e.(type) {
+	case *ast.Ident:
+		return x.Name
+	case *ast.StarExpr:
+		return "*" + typeStr(x.X)
+	case *ast.ArrayType:
+		return "[]" + typeStr(x.Elt)
+	case *ast.SelectorExpr:
+		return typeStr(x.X) + "." + x.Sel.Name
+	}
+	return "?"
 }
 
 // evalStr evaluates "lit" and "lit" + ident.
